@@ -87,10 +87,24 @@ async fn handle_connection(
             // handler set its own; no response query buffer either way.
             let echo = crate::message::response_echo_query(&resp, view.query);
             if let Some(dur) = write_timeout {
-                timeout(dur, write_view_response(&mut writer, &resp, echo))
-                    .await
-                    .ok();
-                timeout(dur, writer.flush()).await.ok();
+                // A write that fails or times out may have put part of the frame on
+                // the wire; continuing would append the next response to it. End the
+                // connection instead (as the no-timeout branch and the blocking
+                // server do on a write error).
+                let write = async {
+                    write_view_response(&mut writer, &resp, echo).await?;
+                    writer.flush().await?;
+                    Ok::<(), RepeError>(())
+                };
+                match timeout(dur, write).await {
+                    Ok(result) => result?,
+                    Err(_) => {
+                        return Err(RepeError::Io(std::io::Error::new(
+                            std::io::ErrorKind::TimedOut,
+                            "response write timed out",
+                        )));
+                    }
+                }
             } else {
                 write_view_response(&mut writer, &resp, echo).await?;
                 writer.flush().await?;
